@@ -525,12 +525,21 @@ fn sequences_from(kinds: &[Kind], prefix: &[Ev], max_len: usize, leaf: &mut dyn 
     extend(&models, &mut seq, max_len, leaf);
 }
 
-fn kind_sets() -> Vec<Vec<Kind>> {
+fn kind_sets(triples: bool) -> Vec<Vec<Kind>> {
     let all = [Kind::Plain, Kind::Cancellable, Kind::PreCancelled, Kind::TokenGuard];
     let mut v: Vec<Vec<Kind>> = all.iter().map(|k| vec![*k]).collect();
     for (i, a) in all.iter().enumerate() {
         for b in &all[i..] {
             v.push(vec![*a, *b]);
+        }
+    }
+    if triples {
+        for (i, a) in all.iter().enumerate() {
+            for (j, b) in all.iter().enumerate().skip(i) {
+                for c in &all[j..] {
+                    v.push(vec![*a, *b, *c]);
+                }
+            }
         }
     }
     v
@@ -545,6 +554,7 @@ fn eval(kinds: &[Kind], seq: &[Ev], mode: Rt, rep: &mut Report, states: &mut Has
         }
         Ok(out) => {
             rep.case_nokey(&format!("executed:{}-task", kinds.len()));
+            rep.max_depth = rep.max_depth.max(seq.len() as u64);
             rep.transitions += out.events;
             for c in out.classes {
                 *rep.classes.entry(c).or_insert(0) += 1;
@@ -575,7 +585,7 @@ fn main() {
     let ctx = Ctx::from_args("C42");
     quiet_panics_on_this_thread();
     let spec = Spec {
-        rule: "task sets: every single kind of {plain spawn, spawn_cancellable, spawn_cancellable with a pre-cancelled token, raw Token + drop guard} and every unordered pair of kinds; events per task: gate opens (return) | gate opens (panic) [once], cancel [cancellable], first joiner, second joiner [after the first], drop handle (aborts that task's joiners first) / per token: trigger, disarm guard, drop guard, first/second waiter. EVERY order of enabled events is executed up to length L (1 task: all maximal sequences; 2 tasks: L=6 quick, 7 thorough), oracle after every event, so all shorter orders are covered as prefixes. One evaluation = one maximal sequence on a fresh current-thread runtime (paused clock); a transition = one event applied to the real objects + one oracle evaluation; states = distinct reference-model states visited; distinct by construction (the DFS over enabled events never repeats a sequence); non-trivial = executions with at least one joiner and an ended task. A sub-set is re-run on a 2-worker multi-thread runtime as a smoke pass (reported separately, not counted).",
+        rule: "task sets: every single kind of {plain spawn, spawn_cancellable, spawn_cancellable with a pre-cancelled token, raw Token + drop guard} and every unordered pair of kinds; events per task: gate opens (return) | gate opens (panic) [once], cancel [cancellable], first joiner, second joiner [after the first], drop handle (aborts that task's joiners first) / per token: trigger, disarm guard, drop guard, first/second waiter. EVERY order of enabled events is executed up to length L (1 task: all maximal sequences; 2 tasks: L=7 quick, thorough: all maximal sequences = every order of every event, up to 10 events; thorough also every multiset of 3 kinds with L=4), oracle after every event, so all shorter orders are covered as prefixes. One evaluation = one maximal sequence on a fresh current-thread runtime (paused clock); a transition = one event applied to the real objects + one oracle evaluation; states = distinct reference-model states visited; distinct by construction (the DFS over enabled events never repeats a sequence); non-trivial = executions with at least one joiner and an ended task. A sub-set is re-run on a 2-worker multi-thread runtime as a smoke pass (reported separately, not counted).",
         assumptions: &[
             "tasks of a current-thread runtime interleave only at awaits; every await of the task bodies and joiners waits on a harness-owned gate or on the handle under test, so event orders are the schedules",
             "settled state = tokio's paused clock auto-advancing a 1 ms sleep, which happens only when every other task is blocked",
@@ -608,15 +618,19 @@ fn main() {
         finish(&ctx, rep, spec);
     }
 
-    let two_len: usize = ctx.tier.pick(6, 7);
+    let two_len: usize = ctx.tier.pick(7, 16);
     let wall_cap = Duration::from_secs(ctx.tier.pick(50, 780));
     let t0 = Instant::now();
     let states = Mutex::new(HashSet::<u64>::new());
     let mut rep = Report::new();
     let mut per_set = vec![];
     let mut smoke_items: Vec<(Vec<Kind>, Vec<Ev>)> = vec![];
-    for kinds in kind_sets() {
-        let max_len = if kinds.len() == 1 { 16 } else { two_len };
+    for kinds in kind_sets(!ctx.quick()) {
+        let max_len = match kinds.len() {
+            1 => 16,
+            2 => two_len,
+            _ => 4,
+        };
         // work items: all prefixes of length <= 2, expanded below by each worker
         let mut prefixes: Vec<Vec<Ev>> = vec![];
         sequences_from(&kinds, &[], 2.min(max_len), &mut |s| prefixes.push(s.to_vec()));
